@@ -69,6 +69,7 @@ func runConc(c ConcCase) *h.Result {
 		return h.Fail("defgeneric failed: %s", o)
 	}
 	table := ref.NewTable(u)
+	table.Tagged = true
 	apply := func(s *slip.Scope, op Op, id int) string {
 		switch op.K {
 		case "def":
